@@ -563,6 +563,14 @@ def assemble(unit: dict, scratch: str, passname="A") -> Assembled:
             # a Symbol constant: Verus consts cannot call exec code, so emit an exec const with its value as a postcondition
             parts.append(f'pub exec const {c["name"]}: Symbol ensures {c["name"]}.code@ == str_code("{m.group(1)}"@) {{ Symbol::vx_const("{m.group(1)}") }}')
             continue
+        mb = re.fullmatch(r'b"([^"\\]*)"', c["expr"].strip())
+        if unit.get("bytestr_consts") == "array" and mb and re.fullmatch(r"&\s*(?:'static\s*)?\[\s*u8\s*\]", c["ty"].strip()):
+            # unit option "bytestr_consts": "array" — this Verus rejects `const X: &[u8] = b"…"` (spike s9); the constant is
+            # emitted as the fixed-size array with the same bytes (escape-free literals only).  Indexing `X[i]` has the same
+            # meaning (bounds check against the same length, same element).
+            bs = mb.group(1).encode("ascii")
+            parts.append(f"pub const {c['name']}: [u8; {len(bs)}] = [" + ", ".join(str(b) for b in bs) + f"];   // = {c['expr']}")
+            continue
         parts.append(f"pub const {c['name']}: {c['ty']} = {c['expr']};")
     parts.append("// ==== data types generated from the source items (T7) ====")
     seen_t = set()
